@@ -85,6 +85,7 @@ class Child:
         self.pre = b''            # channel noise before the report
         self.post = b''           # channel noise after the report
         self.tests = []           # ids of tests that ran here
+        self.subfails = {}        # test id -> [(kind, str(subtest))] for failing subtests, as logged when they failed
 
     @property
     def complete(self):
@@ -148,6 +149,8 @@ def children(run):
                 c.post += data
         elif ev == 'T' and e['ph'] == 'run':
             c.tests.append(e['id'])
+        elif ev == 'T' and e['ph'] == 'subfail':
+            c.subfails.setdefault(e['id'], []).append((e['kind'], e['s']))
     return out
 
 
@@ -160,11 +163,16 @@ def names_of(w, ids, subfails=None):
         if rec is None:
             continue
         ran += 1
+        if rec['t']['k'] == 'subtests':
+            continue      # named below: a failing subtest is reported under str(subtest)
         f, e, s, u = model.events_of(rec['t'])
         if f + u:
             fails[norm(rec['str'])] += f + u
         if e:
             errs[norm(rec['str'])] += e
+    for tid, subs in (subfails or {}).items():
+        for kind, name in subs:
+            (fails if kind == 'fail' else errs)[norm(name)] += 1
     return ran, fails, errs
 
 
